@@ -25,9 +25,21 @@ ASSUMPTIONS = [
     "'last good checkpoint' = the newest generation that has ever been complete under the checkpoint name itself; before any checkpoint was installed there is nothing to lose and only the no-mixture clause is judged",
 ]
 
-NAME = simfs.VROOT + "/run/checkpoint.json"
+DEFAULT_NAME = simfs.VROOT + "/run/checkpoint.json"
+# unusual but legal checkpoint names: no '.json' suffix, no suffix at all, '.json' inside a directory
+# name, another directory
+NAMES = [DEFAULT_NAME, simfs.VROOT + "/run/state.ckpt", simfs.VROOT + "/run/checkpoint", simfs.VROOT + "/run.json.d/chk", simfs.VROOT + "/other/dir/c.json"]
+NAME = DEFAULT_NAME
 OLD = NAME + ".old"
 NEW = NAME + ".new"
+
+
+def use_name(name):
+    """Select the checkpoint name of the scenario being executed (workers run one scenario at a time)."""
+    global NAME, OLD, NEW
+    NAME = name or DEFAULT_NAME
+    OLD = NAME + ".old"
+    NEW = NAME + ".new"
 
 SIZES = {"small": 3, "medium": 150, "large": 2500}
 BUFFERS = [1, 7, 64, 512, 4096, 8192, 1000000]
@@ -85,6 +97,8 @@ def _set_generation(caller, size, g):
     import torch
 
     obj, p0, p1 = _system(caller, size)
+    if obj is not None:
+        obj.checkpoint = NAME
     n = SIZES[size]
     with torch.no_grad():
         p0._tensor = torch.arange(n, dtype=torch.float64) * 1e-3 + float(g) + 0.125
@@ -203,7 +217,9 @@ def probe_ops(fs, caller, size, g):
 def execute(scenario, log=None):
     """Run a scenario.  Returns dict(violations, states, stats, digest)."""
     if scenario.get("mode") == "runloop":
+        use_name(None)
         return execute_runloop(scenario, log)
+    use_name(scenario.get("name"))
     caller, size, buf = scenario["caller"], scenario["size"], scenario["buffer"]
     if log is None:
         log = EventLog()
@@ -394,7 +410,9 @@ def generate_sequence(seed, index):
     buf = k.choice(bufs)
     start = k.weighted(["g0", "empty"], [5, 1])
     depth = k.randint(2, 6)
-    scenario = {"caller": caller, "size": size, "buffer": buf, "start": start, "attempts": []}
+    name = k.weighted(NAMES, [6, 1, 1, 1, 1])
+    use_name(name)
+    scenario = {"caller": caller, "size": size, "buffer": buf, "start": start, "attempts": [], "name": name}
     fs = SimFS(buffer_size=buf)
     simfs.activate(fs)
     try:
@@ -426,11 +444,12 @@ def generate_sequence(seed, index):
     return scenario
 
 
-def sweep_scenarios(caller, size, buf, rng):
+def sweep_scenarios(caller, size, buf, rng, name=None):
     """Depth 1, complete: every fault at every point of one write over a complete
     checkpoint, plus the same over the two directory states a crash can leave
     behind with `name` missing or with a stale sibling."""
     out = []
+    use_name(name)
     fs = SimFS(buffer_size=buf)
     simfs.activate(fs)
     try:
@@ -439,7 +458,7 @@ def sweep_scenarios(caller, size, buf, rng):
     finally:
         simfs.deactivate()
     for fault in enumerate_faults(oplog, uw, rng):
-        out.append({"caller": caller, "size": size, "buffer": buf, "start": "g0", "attempts": [{"action": None, "fault": fault}]})
+        out.append({"caller": caller, "size": size, "buffer": buf, "start": "g0", "attempts": [{"action": None, "fault": fault}], "name": NAME})
     return out
 
 
@@ -588,9 +607,13 @@ SELFTEST_N = {"quick": 8, "thorough": 48}
 
 def plan(tier, seed, scale=1.0):
     tasks = []
+    ci = 0
     for caller in CALLERS:
         for size, buf in SWEEP_CONFIGS:
-            tasks.append({"kind": "sweep", "caller": caller, "size": size, "buffer": buf, "seed": seed})
+            # every third configuration of the sweep uses one of the unusual checkpoint names
+            name = NAMES[1 + (ci // 3) % (len(NAMES) - 1)] if ci % 3 == 2 else DEFAULT_NAME
+            ci += 1
+            tasks.append({"kind": "sweep", "caller": caller, "size": size, "buffer": buf, "seed": seed, "name": name})
     for ri, recipe in enumerate(RUNLOOP_RECIPES):
         for resumed in (False, True):
             for buf in ((8192,) if tier == "quick" else (7, 512, 8192)):
@@ -622,7 +645,7 @@ def run_task(task):
         found_by = "run-loop sweep (every fs operation of every checkpoint write of one run)"
     elif task["kind"] == "sweep":
         rng = Rng(run_seed(task["seed"], PROP, "sweep-%s-%s-%s" % (task["caller"], task["size"], task["buffer"])))
-        scenarios = sweep_scenarios(task["caller"], task["size"], task["buffer"], rng)
+        scenarios = sweep_scenarios(task["caller"], task["size"], task["buffer"], rng, task.get("name"))
         found_by = "depth-1 sweep"
     else:
         scenarios = [generate_sequence(task["seed"], i) for i in range(task["lo"], task["hi"])]
